@@ -53,7 +53,7 @@ FragKinds ==
      \* typing
      odd_annotations |-> 1, string_annotation_errors |-> 1, typing_calls |-> 1, noncallable_deco |-> 1, builtin_arity |-> 1,
      helper_arity |-> 1, callback_arg |-> 1, return_classes |-> 1, return_metaclass |-> 0,
-     \* constructs confined to a kind of their own because the unchanged tree is known to deviate on them (Dev_* below)
+     \* the inputs of four repaired crashes (kept as regression generators)
      match_value_dotted |-> 0, recursive_str_alias |-> 0, pure_call_raises |-> 1]
 
 Kinds == DOMAIN FragKinds
@@ -93,21 +93,31 @@ GNext == PickKind \/ PickOperands \/ PickWrap \/ Finish
 (*     p = << >> if str.splitlines() leaves the line in one piece, else    *)
 (*         the texts of the pieces it cuts the line into (splitlines also  *)
 (*         breaks at FF, VT, FS, GS, RS, NEL, LS, PS, which may legally    *)
-(*         occur inside a Python line)                                     *)
+(*         occur inside a Python line); only the pre-repair model reads p  *)
 (* A node (ast.AST position attributes; col / end_col are UTF-8 byte       *)
 (* offsets as CPython reports them):                                       *)
-(*   node == [haspos, lineno, col, end_lineno, end_col, fwd]               *)
+(*   node == [haspos, lineno, col, end_lineno, end_col, fwd, alineno, acol]*)
 (*     fwd = TRUE for a node of a string annotation, which pyanalyze parses *)
-(*     separately (annotations.py:671): its position is relative to the    *)
-(*     string, not to the file.                                            *)
+(*     separately (annotations.py:671): lineno / col are then its position *)
+(*     inside the string, alineno / acol the position of the annotation    *)
+(*     expression in the file (the context's node, annotations.py:684).    *)
+(*                                                                         *)
+(* Repaired behaviour is REQUIRED; the switches select the model of the    *)
+(* code before the repair and exist for the sensitivity configurations     *)
+(* only (every real check runs with TRUE):                                 *)
+(*   FixedLines  9834ac5: _lines() splits at CRLF / LF / CR only           *)
+(*   FixedFwd    01bc95c: the nodes of a string annotation are given the   *)
+(*               annotation's own position before they are evaluated       *)
 (***************************************************************************)
+CONSTANTS FixedLines, FixedFwd
 Max2(a, b) == IF a >= b THEN a ELSE b
 Min2(a, b) == IF a <= b THEN a ELSE b
 
-Pieces(line) == IF line.p = << >> THEN <<line.t>> ELSE line.p
+Pieces(line) == IF FixedLines \/ line.p = << >> THEN <<line.t>> ELSE line.p
 RECURSIVE ImplLinesFrom(_, _)
 ImplLinesFrom(file, i) == IF i > Len(file) THEN << >> ELSE Pieces(file[i]) \o ImplLinesFrom(file, i + 1)
-\* node_visitor.py:237  _lines(): [line + "\n" for line in self.contents.splitlines()]
+\* node_visitor.py:237-243  _lines(): re.split(r"\r\n|\n|\r", contents) minus a trailing empty string, i.e. the physical
+\* lines themselves (before 9834ac5: contents.splitlines(), i.e. their pieces)
 ImplLines(file) == ImplLinesFrom(file, 1)
 
 NoCtx == << >>
@@ -121,16 +131,22 @@ ImplContext(file, lineno, col) ==
     IN [ctx |-> [i \in 1..Max2(hi - lo, 0) |-> CtxEntry(lo + i - 1, lines[lo + i - 1])],
         caret |-> IF lineno >= lo /\ lineno < hi THEN 6 + col ELSE -1]
 
+\* the position show_error finds on the node: annotations.py:684-693 copies the location of the annotation expression onto
+\* every node of the separately parsed string (before 01bc95c they kept their position inside the string)
+NodePos(node) == IF node.fwd /\ FixedFwd THEN [lineno |-> node.alineno, col |-> node.acol]
+                 ELSE [lineno |-> node.lineno, col |-> node.col]
 \* show_error (node_visitor.py:654-735), one arm per path:
 ImplShow(file, node, obey) ==
+    LET at == NodePos(node) IN
     IF ~node.haspos
     THEN \* :654-658 node without lineno / col_offset: the failure carries neither, no context is rendered
          [out |-> "diag", haspos |-> FALSE, lineno |-> 0, col |-> 0, ctx |-> NoCtx, caret |-> -1]
-    ELSE IF obey /\ node.lineno > Len(ImplLines(file))
-    THEN \* :683 this_line = lines[lineno - 1] raises IndexError (caught by the catch-all around the node visit)
-         [out |-> "raise", haspos |-> TRUE, lineno |-> node.lineno, col |-> node.col, ctx |-> NoCtx, caret |-> -1]
-    ELSE LET c == ImplContext(file, node.lineno, node.col)
-         IN [out |-> "diag", haspos |-> TRUE, lineno |-> node.lineno, col |-> node.col, ctx |-> c.ctx, caret |-> c.caret]
+    ELSE IF obey /\ at.lineno > Len(ImplLines(file))
+    THEN \* :683 this_line = lines[lineno - 1] raises IndexError (caught by the catch-all around the node visit); not
+         \* reachable for a node of the file
+         [out |-> "raise", haspos |-> TRUE, lineno |-> at.lineno, col |-> at.col, ctx |-> NoCtx, caret |-> -1]
+    ELSE LET c == ImplContext(file, at.lineno, at.col)
+         IN [out |-> "diag", haspos |-> TRUE, lineno |-> at.lineno, col |-> at.col, ctx |-> c.ctx, caret |-> c.caret]
 
 (***************************************************************************)
 (* What the property demands (first principles; no reference to the Impl operators) *)
@@ -143,28 +159,17 @@ RefContextOK(d, file) ==
     /\ \E i \in 1..Len(d.ctx) : d.ctx[i].n = d.lineno
 
 (***************************************************************************)
-(* Known deviations of the unchanged tree (named classes; each covers      *)
-(* exactly what the deviating mechanism produces)                          *)
+(* Known deviation of the tree (open finding column-is-utf8-byte-offset;   *)
+(* the class covers exactly what the deviating mechanism produces).  The   *)
+(* former classes context-lines-from-splitlines and                        *)
+(* forward-reference-relative-position are repaired: what they excused is  *)
+(* a violation now.                                                        *)
 (***************************************************************************)
 \* col_offset is a UTF-8 byte offset but is reported (and used for the caret) as a column of the str line: with
 \* non-ASCII text in front of the node the column lies beyond the end of the line
 Dev_ByteColumn(d, file) ==
     /\ d.haspos /\ d.lineno \in 1..Len(file)
     /\ d.col > file[d.lineno].c /\ d.col <= file[d.lineno].b
-\* _lines() cuts the contents with str.splitlines(), which also breaks at FF, VT, FS, GS, RS, NEL, LS, PS: after such a
-\* character every line number indexes the wrong piece, so the context shows pieces under foreign numbers
-BrokenBefore(file, n) == \E i \in 1..Min2(n, Len(file)) : file[i].p # << >>
-Dev_SplitPieces(d, file) ==
-    /\ d.haspos /\ d.lineno \in 1..Len(file)
-    /\ BrokenBefore(file, d.lineno + 3)
-    /\ d.ctx = ImplContext(file, d.lineno, d.col).ctx
-\* the node of a string annotation carries the position it has inside the string: the diagnostic lands on an unrelated
-\* line (possibly beyond its end, possibly beyond the end of the file) or, when the string has more lines than the file
-\* and inline ignore comments are obeyed, show_error raises IndexError
-Dev_ForwardRefPosition(node, r, file) ==
-    /\ node.fwd
-    /\ \/ r.out = "raise"
-       \/ r.out = "diag" /\ ~RefWellFormedPos(r, file)
 
 (***************************************************************************)
 (* P*: the position model checked on small abstract files                  *)
@@ -185,17 +190,22 @@ Shapes == {"ascii", "wide", "broken", "short"}
 
 VARIABLES pfile, pnode, pobey, pstage
 pvars == <<pfile, pnode, pobey, pstage>>
-NoNode == [haspos |-> FALSE, lineno |-> 0, col |-> 0, end_lineno |-> 0, end_col |-> 0, fwd |-> FALSE]
+NoNode == [haspos |-> FALSE, lineno |-> 0, col |-> 0, end_lineno |-> 0, end_col |-> 0, fwd |-> FALSE, alineno |-> 0, acol |-> 0]
 PInit == pfile = << >> /\ pnode = NoNode /\ pobey = TRUE /\ pstage = "lines"
 PAddLine == pstage = "lines" /\ Len(pfile) < PosMaxLines /\ \E s \in Shapes : pfile' = Append(pfile, LineShape(Len(pfile) + 1, s)) /\ UNCHANGED <<pnode, pobey, pstage>>
 PLinesDone == pstage = "lines" /\ Len(pfile) >= 1 /\ pstage' = "node" /\ UNCHANGED <<pfile, pnode, pobey>>
 \* nodes CPython can produce for this file: a node of the file starts on one of its lines at a byte offset inside that
-\* line; a node of a separately parsed string may claim any line / column
+\* line; a node of a separately parsed string may claim any line / column, the annotation expression it belongs to is a
+\* node of the file
+Cols == {0, 2, 5, 8, 10, 12, 14}
 PPickNode ==
     /\ pstage = "node"
-    /\ \E fwd \in BOOLEAN, ln \in 1..(PosMaxLines + 2), col \in {0, 2, 5, 8, 10, 12, 14}, has \in (IF NodesHavePos THEN {TRUE} ELSE BOOLEAN), ob \in BOOLEAN :
+    /\ \E fwd \in BOOLEAN, ln \in 1..(PosMaxLines + 2), col \in Cols, has \in (IF NodesHavePos THEN {TRUE} ELSE BOOLEAN), ob \in BOOLEAN :
           /\ fwd \/ (ln <= Len(pfile) /\ col <= pfile[ln].b)
-          /\ pnode' = [haspos |-> has, lineno |-> ln, col |-> col, end_lineno |-> ln, end_col |-> col + 1, fwd |-> fwd]
+          /\ \E aln \in 1..Len(pfile), acol \in (IF fwd THEN Cols ELSE {col}) :
+                /\ acol <= pfile[aln].b /\ (fwd \/ aln = ln)
+                /\ pnode' = [haspos |-> has, lineno |-> ln, col |-> col, end_lineno |-> ln, end_col |-> col + 1, fwd |-> fwd,
+                              alineno |-> aln, acol |-> acol]
           /\ pobey' = ob
     /\ pstage' = "done" /\ UNCHANGED pfile
 PNext == PAddLine \/ PLinesDone \/ PPickNode
@@ -203,13 +213,10 @@ PNext == PAddLine \/ PLinesDone \/ PPickNode
 PosHolds(file, node, obey) ==
     LET r == ImplShow(file, node, obey)
     IN r.out = "diag" /\ RefWellFormedPos(r, file) /\ RefContextOK(r, file)
-\* DevOn: the deviation classes taken into account (all of them in the real check; the sensitivity cfgs drop one class each
-\* and must then be violated)
+\* DevOn: the deviation classes taken into account ({"byte"} in the real check; the sensitivity cfg without it must be violated)
 PosDeviates(file, node, obey) ==
     LET r == ImplShow(file, node, obey)
-    IN \/ "fwd" \in DevOn /\ Dev_ForwardRefPosition(node, r, file)
-       \/ "byte" \in DevOn /\ ~node.fwd /\ r.out = "diag" /\ Dev_ByteColumn(r, file)
-       \/ "split" \in DevOn /\ r.out = "diag" /\ RefWellFormedPos(r, file) /\ Dev_SplitPieces(r, file)
+    IN "byte" \in DevOn /\ r.out = "diag" /\ Dev_ByteColumn(r, file) /\ RefContextOK(r, file)
 PosProperty == pstage = "done" => PosHolds(pfile, pnode, pobey) \/ PosDeviates(pfile, pnode, pobey)
 PosStrict == pstage = "done" => PosHolds(pfile, pnode, pobey)
 
@@ -259,22 +266,12 @@ End == life \in {"Start", "Diags"} /\ life' = "Done" /\ UNCHANGED ndiags
 TypeOK == life \in {"Start", "Diags", "Done"} /\ ndiags \in Nat
 
 (***************************************************************************)
-(* Known deviations of the unchanged tree on the input side (internal_error *)
-(* diagnostics).  exc = the "Internal error: ..." line of the report ("" if *)
-(* the report was made directly), head = the first line of the message.     *)
+(* Input side: the classes on-error-default-detail-ellipsis (1424e7b),     *)
+(* match-value-not-literal-internal-error (3c3cadd),                       *)
+(* recursive-string-alias-recursion-error (5cbaf61) and                    *)
+(* shared-type-of-metaclass-unbound-mro (776c13e) are repaired: there is   *)
+(* no excused internal_error any more -- WellFormed rejects every one.     *)
+(* The fragment kinds pure_call_raises, match_value_dotted,                *)
+(* recursive_str_alias and return_metaclass keep generating the inputs.    *)
 (***************************************************************************)
-\* signature.py:223 _VisitorBasedContext.on_error declares `detail: Optional[str] = ...` (the Ellipsis of the protocol stub
-\* instead of None): a callee evaluated at check time that raises inside an overloaded call hands Ellipsis to
-\* CanAssignError(...), whose display() then fails
-EllipsisExc == "Internal error: AttributeError(\"'ellipsis' object has no attribute 'splitlines'\")"
-Dev_EllipsisDetail(d) == d.code = "internal_error" /\ d.exc = EllipsisExc
-\* patma.py:194-199 reports a value pattern whose value is not a literal as internal_error
-Dev_MatchValueNotLiteral(f, d) == d.code = "internal_error" /\ d.exc = "" /\ f.kind = "match_value_dotted" /\ d.head = "Match value is not a literal"
-\* annotations.py:404-407 evaluates a plain string inside a PEP 585 alias (list["Rec"]) without the recursion guard that
-\* ForwardRef objects get (:503-513): a self-referential alias recurses until RecursionError
-\* suggested_type.py:230-231 get_shared_type calls t.mro() on every returned class object; for a metaclass (type itself,
-\* EnumMeta, ...) that is the unbound method: an unannotated function returning a class or a metaclass crashes
-MroExc == "Internal error: TypeError('unbound method type.mro() needs an argument')"
-Dev_SharedTypeOfMetaclass(d) == d.code = "internal_error" /\ d.exc = MroExc
-Dev_RecursiveStrAlias(f, d) == d.code = "internal_error" /\ f.kind = "recursive_str_alias" /\ d.exc = "Internal error: RecursionError('maximum recursion depth exceeded')"
 =============================================================================
